@@ -754,15 +754,18 @@ def simp_cc_conds(_, expr):
               expr,
               "FLAG_SIGN_SUB"
           )):
-        expr = ExprOp(TOK_INF_SIGNED, *expr.args[0].args)
+        # Sign of the difference (which may overflow), not a signed compare
+        arg0, arg1 = expr.args[0].args
+        expr = ExprOp(TOK_INF_SIGNED, arg0 - arg1, ExprInt(0, arg0.size))
 
     elif (expr.is_op("CC_POS") and
           test_cc_eq_args(
               expr,
               "FLAG_SIGN_SUB"
           )):
+        arg0, arg1 = expr.args[0].args
         expr = ExprCond(
-            ExprOp(TOK_INF_SIGNED, *expr.args[0].args),
+            ExprOp(TOK_INF_SIGNED, arg0 - arg1, ExprInt(0, arg0.size)),
             ExprInt(0, expr.size),
             ExprInt(1, expr.size)
         )
@@ -845,8 +848,10 @@ def simp_cc_conds(_, expr):
           expr.args[2].is_op("FLAG_EQ_CMP") and
           expr.args[0].args == expr.args[2].args and
           expr.args[1].is_int(0)):
+        # Overflow flag forced to 0: test the (wrapping) difference
+        arg0, arg1 = expr.args[0].args
         expr = ExprCond(
-            ExprOp(TOK_INF_EQUAL_SIGNED, *expr.args[0].args),
+            ExprOp(TOK_INF_EQUAL_SIGNED, arg0 - arg1, ExprInt(0, arg0.size)),
             ExprInt(0, expr.size),
             ExprInt(1, expr.size)
         )
@@ -899,7 +904,9 @@ def simp_cc_conds(_, expr):
           expr.args[2].is_op("FLAG_EQ_CMP") and
           expr.args[0].args == expr.args[2].args and
           expr.args[1].is_int(0)):
-        expr = ExprOp(TOK_INF_EQUAL_SIGNED, *expr.args[0].args)
+        # Overflow flag forced to 0: test the (wrapping) difference
+        arg0, arg1 = expr.args[0].args
+        expr = ExprOp(TOK_INF_EQUAL_SIGNED, arg0 - arg1, ExprInt(0, arg0.size))
 
     elif (expr.is_op("CC_U<=") and
           test_cc_eq_args(
